@@ -44,6 +44,8 @@ func (e *Engine) reset() {
 	e.doneOf = map[string]T{}
 	e.strConsts = map[string]string{}
 	e.cellSeq = 0
+	e.sitesHit = map[string]bool{}
+	e.entered = map[string]bool{}
 }
 
 // analyse verifies one function against its contract block (blk may be nil: safety/lockset sweep only).
@@ -94,6 +96,7 @@ func (e *Engine) analyse(fn *ssa.Function, blk *Block) (rep *FuncReport) {
 		}
 		c := &Cell{ID: e.nextCell(), Name: fv.Name(), Typ: et}
 		st.Cells[c] = e.freshVal(st, et, "fv_"+fv.Name())
+		st.Entry["fv:"+fv.Name()] = st.Cells[c]
 		fr.Cells[fv.Name()] = c
 		fr.Binds = append(fr.Binds, &Addr{Kind: ACell, Cell: c, FieldT: et})
 	}
@@ -101,6 +104,8 @@ func (e *Engine) analyse(fn *ssa.Function, blk *Block) (rep *FuncReport) {
 	// ghost call counters start at zero
 	e.regions["cnt.calls"] = &RegionMeta{Name: "cnt.calls", Args: []Sort{SFn}, Res: SInt}
 	st.Heap["cnt.calls"] = e.defineFun("H_cnt.calls", []T{{"f!", SFn}}, SInt, IntLit(0))
+	e.regions["cnt:go"] = &RegionMeta{Name: "cnt:go", Args: []Sort{SStr}, Res: SInt}
+	st.Heap["cnt:go"] = e.defineFun("H_cnt.go", []T{{"f!", SStr}}, SInt, IntLit(0))
 	// definitional axioms of spec functions
 	for _, ab := range e.cs.Blocks {
 		if ab.Kind != "axioms" {
@@ -155,6 +160,29 @@ func (e *Engine) analyse(fn *ssa.Function, blk *Block) (rep *FuncReport) {
 		}
 		e.checkExit(run, ex, blk)
 	}
+	// call-site clauses whose site does not exist (any more) in a function that was analysed
+	e.entered[name] = true
+	var entered []string
+	for fnm := range e.entered {
+		entered = append(entered, fnm)
+	}
+	sort.Strings(entered)
+	for _, fnm := range entered {
+		b := e.cs.Funcs[fnm]
+		if b == nil {
+			continue
+		}
+		for _, kind := range []string{"at-call", "after-call"} {
+			for _, cl := range b.All(kind) {
+				if len(cl.Words) < 1 || e.sitesHit[fnm+"|"+cl.Words[0]] {
+					continue
+				}
+				if strings.Contains(cl.Words[0], ">") || !e.siteExists(e.funcs[fnm], cl.Words[0]) {
+					e.emitBroken(st, fmt.Sprintf("%s/%s@%s:%s", fnm, kind, cl.Words[0], cl.Label()), cl, "no such call site in the current source")
+				}
+			}
+		}
+	}
 	rep.Queries = e.queries
 	rep.Errors = e.errors
 	rep.Notes = e.notes
@@ -196,6 +224,51 @@ func (e *Engine) assumeObjInv(st *State, v Val, t types.Type) {
 		c.vars[tb.Self] = SV{V: ref, T: t}
 		st.assume(Implies(Not(Eq(ref, NilOf(SRef))), c.boolTerm(x)))
 	}
+}
+
+// siteExists: does function fn contain a call site named callee#n.
+func (e *Engine) siteExists(fn *ssa.Function, site string) bool {
+	if fn == nil {
+		return false
+	}
+	i := strings.LastIndex(site, "#")
+	if i < 0 {
+		return false
+	}
+	callee := site[:i]
+	var n int
+	fmt.Sscan(site[i+1:], &n)
+	cnt := 0
+	if callee == "send" {
+		for _, b := range fn.Blocks {
+			for _, in := range b.Instrs {
+				switch x := in.(type) {
+				case *ssa.Send:
+					cnt++
+				case *ssa.Select:
+					for _, s := range x.States {
+						if s.Dir == types.SendOnly {
+							cnt++
+							break
+						}
+					}
+				}
+			}
+		}
+		return cnt > n
+	}
+	for _, b := range fn.Blocks {
+		for _, in := range b.Instrs {
+			if ci, ok := in.(ssa.CallInstruction); ok {
+				nm := e.calleeName(ci.Common())
+				nm = strings.ReplaceAll(nm, "github.com/joeycumines/go-bigbuff.", "")
+				if nm == callee {
+					cnt++
+				}
+			}
+		}
+	}
+	return cnt > n
 }
 
 func (e *Engine) assumeHolds(st *State, fr *Frame, cl *Clause) {
